@@ -158,8 +158,6 @@ class C20(vlib.Driver):
             ne0 = rng.choice([1, 2, 4, 1, 2, 3, 0])       # 0 = plain (non-vectorised) environment
             ne = max(1, ne0)
             ls = rng.choice([1, 2, 3, 5, 8])
-            if loop == "maon" and -(-ls // ne) == 1:
-                ls = ne + rng.choice([1, 2])          # single-step rollouts are a listed finding (one quick case keeps it visible)
             evo = rng.choice([6, 8, 9, 12, 15])
             c = dict(loop=loop, algo=algo, num_envs=ne0, learn_step=ls, batch_size=rng.choice([2, 4, 6]), evo_steps=max(evo, ne),
                      pop=rng.choice([2, 2, 3, 4]), ep_len=rng.choice([3, 4, 6]), seed=rng.randrange(10 ** 6),
